@@ -163,7 +163,9 @@ struct Built {
 // the fault is left in it), or (2) the history passes a position where today's code re-synchronises every cache
 // file with the log whatever it finds: the first append to the thread after an authority restart, when the full
 // sidecar's last frame is not the log's last frame of the thread (missing / torn / lagging sidecar:
-// load_next_seq_for -> rebuild_best_effort, /repo 0b0d2b0).  Faults applied while the store object is alive, and
+// load_next_seq_for -> rebuild_best_effort, /repo 0b0d2b0), and (3) an operation that begins with replay_events
+// (compaction_checkpoint_cumulative_v1) while try_replay refuses the full sidecar (absent, unparsable line, seqs not
+// 0,1,2,..: replay from the log + rebuild_best_effort).  Faults applied while the store object is alive, and
 // faults across a restart that leave the full sidecar's tail equal to the log's head, are NOT reconciled by
 // today's code: those are the provenances of the open S3/S4 classes.  A wrong answer in a state whose live faults
 // cannot explain it is a new violation (e.g. the re-sync no longer fires).
@@ -195,6 +197,14 @@ fn ref_tail_seq(raw: &Option<Vec<u8>>, id: &str) -> Option<u64> {
         return None;
     }
     Some(ev.seq)
+}
+/// try_replay's acceptance test on the bytes of a full sidecar: present, non-empty, every line a frame of this thread, seqs 0,1,2,..
+fn ref_try_replay_ok(raw: &Option<Vec<u8>>, id: &str) -> bool {
+    let Some(raw) = raw else { return false };
+    match parsed_lines(raw, id) {
+        Some(ls) => !ls.is_empty() && ls.iter().enumerate().all(|(i, (e, _))| e.seq == i as u64),
+        None => false,
+    }
 }
 /// the file is exactly what a rebuild from the truth stream writes (absent counts when there is nothing to hold)
 fn is_projection(t: Target, bytes: &Option<Vec<u8>>, truth: &[(Event, Vec<u8>)]) -> bool {
@@ -593,6 +603,16 @@ fn build(case: &Case) -> Built {
                             resynced = true;
                         }
                     }
+                    // (3) an operation that starts with replay_events (the cumulative checkpoint) rebuilds every cache file
+                    // from the log when try_replay refuses the full sidecar
+                    if matches!(op, Op::Checkpoint { .. }) && !messages.is_empty() {
+                        let full_readable = !was_present[&Target::Full] || was[&Target::Full].is_some();
+                        if full_readable && !ref_try_replay_ok(&was[&Target::Full], &id) {
+                            prov.live.clear();
+                            prov.resync_at.push(opi);
+                            resynced = true;
+                        }
+                    }
                     let mut all_proj = true;
                     for t in CONFORM_TARGETS {
                         if now_present[&t] && now[&t].is_none() {
@@ -978,16 +998,20 @@ fn classify_violation(c: &Coherence, fast: &Ans, _truth: &Ans, q: &Q, prov: &Pro
     if c.full == FileState::WellFormedDiffers && c.full_stale_prefix && any(&[Target::Full], &["TruncLines", "Rollback"]) {
         return "full_sidecar_wellformed_stale_prefix".into();
     }
-    if (c.mr == FileState::WellFormedDiffers && any(&[Target::Mr], &LOSSY)) || (c.comp == FileState::WellFormedDiffers && any(&[Target::Comp], &LOSSY)) {
+    // only the queries that read the derived files can be wrong because of them (replay, cursor / selection status,
+    // rotate and the branch / handoff cut read the full sidecar alone)
+    let reads_derived = matches!(q, Q::CutPoints { .. } | Q::CompactionStatus { .. } | Q::Compile { .. });
+    if reads_derived && ((c.mr == FileState::WellFormedDiffers && any(&[Target::Mr], &LOSSY)) || (c.comp == FileState::WellFormedDiffers && any(&[Target::Comp], &LOSSY))) {
         return "derived_sidecar_wellformed_not_projection".into();
     }
-    if (c.mr == FileState::Empty && any(&[Target::Mr], &["TruncLines"])) || (c.comp == FileState::Empty && any(&[Target::Comp], &["TruncLines"])) {
+    if reads_derived && ((c.mr == FileState::Empty && any(&[Target::Mr], &["TruncLines"])) || (c.comp == FileState::Empty && any(&[Target::Comp], &["TruncLines"]))) {
         return "derived_sidecar_zero_length_accepted".into();
     }
     // the ordinal index is cross-checked only through its last record; an index whose last record is NOT the last
     // message is detected by the readers, so a disagreement in that state would be a new defect, not this class
-    if (c.compidx == FileState::WellFormedDiffers && (any(&[Target::CompIdx], &LOSSY) || any(&[Target::Comp], &ANYK)))
-        || (c.ord == FileState::WellFormedDiffers && c.ord_tail_coherent && (any(&[Target::Ord], &LOSSY) || any(&[Target::Mr], &ANYK)))
+    if reads_derived
+        && ((c.compidx == FileState::WellFormedDiffers && (any(&[Target::CompIdx], &LOSSY) || any(&[Target::Comp], &ANYK)))
+            || (c.ord == FileState::WellFormedDiffers && c.ord_tail_coherent && (any(&[Target::Ord], &LOSSY) || any(&[Target::Mr], &ANYK))))
     {
         return "derived_index_wellformed_not_projection".into();
     }
@@ -1724,7 +1748,11 @@ fn main() {
     }
 
     for (ci, case) in cases.iter().enumerate() {
+        let t0 = std::time::Instant::now();
         let out = run_case(case);
+        if std::env::var("RV_C04_TIMING").is_ok() {
+            eprintln!("timing case {ci}: long={} ops={} queries={} frames={} ms={}", case.long, case.ops.len(), case.queries.len(), out.abs.truth.len(), t0.elapsed().as_millis());
+        }
         res.evaluations += 1;
         res.bump_by("op_errors", out.op_errors);
         let nf = case.ops.iter().filter(|o| matches!(o, Op::Fault { .. } | Op::LoseDir)).count();
